@@ -87,6 +87,17 @@ func historyCmd(job []byte, out *Out) error {
 			// part of a history: requests the library refuses (and reports as errors) belong to a caller's life too
 			_, _ = fft.New(0)
 			_, _ = fft.New(1 << 28)
+			// ... and so does using what the exported helpers hand out: the caller owns the slices it gets back
+			for b := 0; b < 256; b++ {
+				r := randomness.B2bit(byte(b))
+				for i := range r {
+					r[i] = !r[i]
+				}
+			}
+			r2 := randomness.B2bitArr([]byte{0x00, 0xFF, 0xA5})
+			for i := range r2 {
+				r2[i] = i%3 == 0
+			}
 		}
 		done := make(chan struct{})
 		go func() {
